@@ -264,7 +264,11 @@ def _call_handler(eng, st, f, args, kwargs, line):
     advance_clock(eng, s2, None)
     res = z3.Const(eng.name('handler_result'), PV)
     eng.inputs[str(res)] = res
-    yield s2, V(ANY, res)
+    s5 = s2.copy()
+    hr = s5.ghost['hresults']
+    s5.ghost['hresults'] = V(List(ANY), z3.Concat(hr.t, z3.Unit(res)))
+    eng._wrote(s5, ('ghost', 'hresults'))
+    yield s5, V(ANY, res)
     yield s2.copy(), R('TypeError', line)
     yield s2.copy(), R('AnyException', line)
 
